@@ -236,6 +236,8 @@ func checkC17(c *Ctx) {
 	checkResponsePrecedence(c, pk)
 	checkLoopTotality(c, "C17.R7.loop-totality", pk, "codescan", 40, codescanLoopExits)
 	checkCountsUsed(c, "C17.R6.counts-used", pk)
+	checkNilableResults(c, "C17.R1.nilable-results", pk)
+	checkLocationsWritten(c, "C17.R3.locations-written", pk)
 	checkTypeOfNil(c, "C17.R1.typeof-nil", pk)
 	checkPathRequiredLast(c, "C17.R6.path-required", pk)
 	checkNamePatterns(c, "C17.R4.name-patterns", pk)
@@ -1290,7 +1292,7 @@ func checkNamePatterns(c *Ctx, rule string, pk *packages.Package) {
 // separator — so it must be split on the separator alone; splitting on separator+blank keeps
 // `a,b` as one element.
 func checkListSplits(c *Ctx, rule string, pk *packages.Package) {
-	c.Rule(rule, "no strings.Split on a separator followed by a blank", 1)
+	c.Rule(rule, "no strings.Split on a separator followed by a blank; the elements of a comma-separated list are trimmed where they are ranged", 4)
 	info := pk.TypesInfo
 	n := 0
 	for _, fd := range load.AllFuncs(pk) {
@@ -1315,6 +1317,94 @@ func checkListSplits(c *Ctx, rule string, pk *packages.Package) {
 	}
 	if n == 0 {
 		c.Unk(rule, "codescan › strings.Split calls", "", "none found")
+	}
+	// the elements of a list written with commas are used without the blanks around them: every
+	// strings.Split(…, ",") of an annotation value has its elements trimmed where they are ranged
+	// (in the function, or in the package function the list is handed to)
+	trimsRange := func(body ast.Node, inf *types.Info, list types.Object) bool {
+		found := false
+		ast.Inspect(body, func(nd ast.Node) bool {
+			rs, ok := nd.(*ast.RangeStmt)
+			if !ok || !identIs(inf, rs.X, list) || rs.Value == nil {
+				return true
+			}
+			ev := inf.ObjectOf(rs.Value.(*ast.Ident))
+			ast.Inspect(rs.Body, func(m ast.Node) bool {
+				if call, ok := m.(*ast.CallExpr); ok && len(call.Args) >= 1 {
+					if fn := goan.Callee(inf, call); fn != nil && goan.CalleeName(fn) == "strings.TrimSpace" && identIs(inf, call.Args[0], ev) {
+						found = true
+					}
+				}
+				return true
+			})
+			return true
+		})
+		return found
+	}
+	decls := map[*types.Func]*ast.FuncDecl{}
+	for _, fd := range load.AllFuncs(pk) {
+		if fn, _ := info.Defs[fd.Name].(*types.Func); fn != nil && fd.Body != nil {
+			decls[fn] = fd
+		}
+	}
+	for _, fd := range load.AllFuncs(pk) {
+		fd := fd
+		if fd.Body == nil {
+			continue
+		}
+		ast.Inspect(fd.Body, func(nd ast.Node) bool {
+			as, ok := nd.(*ast.AssignStmt)
+			if !ok || len(as.Lhs) != 1 || len(as.Rhs) != 1 {
+				return true
+			}
+			call, ok := ast.Unparen(as.Rhs[0]).(*ast.CallExpr)
+			if !ok || len(call.Args) != 2 {
+				return true
+			}
+			if fn := goan.Callee(info, call); fn == nil || goan.CalleeName(fn) != "strings.Split" {
+				return true
+			}
+			if sep, ok := goan.StringVal(info, call.Args[1]); !ok || sep != "," {
+				return true
+			}
+			id, ok := as.Lhs[0].(*ast.Ident)
+			if !ok {
+				return true
+			}
+			list := info.ObjectOf(id)
+			trimmed := trimsRange(fd.Body, info, list)
+			if !trimmed {
+				// handed to a function of the package that ranges its parameter and trims
+				ast.Inspect(fd.Body, func(m ast.Node) bool {
+					c2, ok := m.(*ast.CallExpr)
+					if !ok {
+						return true
+					}
+					callee := goan.Callee(info, c2)
+					cd := decls[callee]
+					if cd == nil {
+						return true
+					}
+					for k, a := range c2.Args {
+						if identIs(info, a, list) {
+							i := 0
+							for _, fl := range cd.Type.Params.List {
+								for _, nm := range fl.Names {
+									if i == k && trimsRange(cd.Body, info, info.Defs[nm]) {
+										trimmed = true
+									}
+									i++
+								}
+							}
+						}
+					}
+					return true
+				})
+			}
+			c.Check(trimmed, rule, fmt.Sprintf("codescan.%s › elements of strings.Split(%s, \",\") are trimmed", load.FuncName(fd), goan.ExprString(call.Args[0])), c.posOf(pk, call.Pos()), "strings.TrimSpace on each element",
+				fmt.Sprintf("the elements of the comma-separated list %s are used as they were split: `a, b` yields \"a\" and \" b\" — the sibling lists of the scanner (schemes, scopes, route enums) trim theirs", goan.ExprString(call.Args[0])))
+			return true
+		})
 	}
 }
 
@@ -1556,6 +1646,156 @@ func checkCountsUsed(c *Ctx, rule string, pk *packages.Package) {
 				c.Check(magnitudes > 0, rule, fmt.Sprintf("codescan.%s › %s of %s used as a magnitude", load.FuncName(fd), rname, fn.Name()), c.posOf(pk, as.Pos()), fmt.Sprintf("%d uses as a magnitude, %d tests against a constant", magnitudes, tests),
 					fmt.Sprintf("%s counts %s, and %s only compares the count with a constant (%d tests): every count above the constant is treated alike — `[][]T` is built as `[]T`", fn.Name(), rname, load.FuncName(fd), tests))
 			}
+			return true
+		})
+	}
+}
+
+// Reviewed dereferences of a result that one implementation answers with nil.
+var nilableResultsReviewed = map[string]string{
+	"codescan.paramTypable.AddExtension › pt.Schema()":           "under `pt.param.In == \"body\"`, the very condition under which paramTypable.Schema answers non-nil",
+	"codescan.paramTypable.WithEnum › pt.Schema()":               "same guard",
+	"codescan.paramTypable.SetSchema › pt.Schema()":              "same guard",
+	"codescan.responseBuilder.buildFromField › typable.Schema()": "the response builder only hands responseTypable and schemaTypable values to buildFromField, and neither answers nil",
+}
+
+// checkNilableResults: a method that has `return nil` for some receivers (paramTypable.Schema
+// answers nil for every parameter that is not in the body) hands that nil to whoever selects
+// from its result — directly, or through the interface the method implements.
+func checkNilableResults(c *Ctx, rule string, pk *packages.Package) {
+	c.Rule(rule, "the result of a method that some implementation answers with nil is not selected from without a nil test (reviewed exceptions)", 1)
+	info := pk.TypesInfo
+	nilable := map[string]bool{} // method name: some implementation answers nil
+	nilImpl := map[string]bool{} // receiver.method: this implementation answers nil
+	for _, fd := range load.AllFuncs(pk) {
+		if fd.Body == nil || fd.Recv == nil || fd.Type.Results == nil || fd.Type.Results.NumFields() != 1 {
+			continue
+		}
+		if _, isPtr := info.TypeOf(fd.Type.Results.List[0].Type).(*types.Pointer); !isPtr {
+			continue
+		}
+		ast.Inspect(fd.Body, func(n ast.Node) bool {
+			if _, isLit := n.(*ast.FuncLit); isLit {
+				return false
+			}
+			if rs, ok := n.(*ast.ReturnStmt); ok && len(rs.Results) == 1 && goan.IsNil(info, rs.Results[0]) {
+				nilable[fd.Name.Name] = true
+				nilImpl[load.FuncName(fd)] = true
+			}
+			return true
+		})
+	}
+	c.Analysed("methods with a nil answer (codescan)", len(nilable))
+	n := 0
+	for _, fd := range load.AllFuncs(pk) {
+		if fd.Body == nil {
+			continue
+		}
+		ord := map[string]int{}
+		goan.WalkGuards(info, fd.Body, func(leaf ast.Node, guards []goan.Lit, _ []ast.Stmt) {
+			if rs, ok := leaf.(*ast.RangeStmt); ok {
+				leaf = rs.X
+			}
+			ast.Inspect(leaf, func(m ast.Node) bool {
+				if _, isLit := m.(*ast.FuncLit); isLit {
+					return false
+				}
+				se, ok := m.(*ast.SelectorExpr)
+				if !ok {
+					return true
+				}
+				call, ok := ast.Unparen(se.X).(*ast.CallExpr)
+				if !ok {
+					return true
+				}
+				fn := goan.Callee(info, call)
+				if fn == nil || fn.Pkg() != pk.Types || !nilable[fn.Name()] || len(call.Args) != 0 {
+					return true
+				}
+				sig, _ := fn.Type().(*types.Signature)
+				if sig == nil || sig.Recv() == nil {
+					return true
+				}
+				if !types.IsInterface(sig.Recv().Type()) && !nilImpl[strings.TrimSuffix(load.RecvNameOf(fn), ".")+"."+fn.Name()] {
+					return true // a concrete receiver whose own implementation never answers nil
+				}
+				n++
+				base := fmt.Sprintf("codescan.%s › %s", load.FuncName(fd), goan.ExprString(call))
+				ord[base]++
+				key := base
+				if ord[base] > 1 {
+					key = fmt.Sprintf("%s #%d", base, ord[base])
+				}
+				tested := false
+				for _, g := range guards {
+					if g.Tag != nil || g.NonEmpty {
+						continue
+					}
+					if be, ok := ast.Unparen(g.E).(*ast.BinaryExpr); ok {
+						for _, pair := range [][2]ast.Expr{{be.X, be.Y}, {be.Y, be.X}} {
+							if goan.ExprString(ast.Unparen(pair[0])) == goan.ExprString(call) && goan.IsNil(info, pair[1]) {
+								if (be.Op == token.NEQ && g.Pos) || (be.Op == token.EQL && !g.Pos) {
+									tested = true
+								}
+							}
+						}
+					}
+				}
+				if tested {
+					c.Ok(rule, key, c.posOf(pk, se.Pos()), "under "+goan.ExprString(call)+" != nil")
+					return true
+				}
+				if why, ok := nilableResultsReviewed[base]; ok {
+					c.Ok(rule, key, c.posOf(pk, se.Pos()), "reviewed: "+why)
+					return true
+				}
+				c.Bad(rule, key, c.posOf(pk, se.Pos()), fmt.Sprintf("%s selects .%s from the result of %s, which some implementation answers with nil (for a parameter that is not in the body there is no schema): a nil pointer dereference instead of an error", load.FuncName(fd), se.Sel.Name, goan.ExprString(call)))
+				return true
+			})
+		})
+	}
+	if n == 0 {
+		c.Ok(rule, "codescan › no selection from a nil-able result", "", "none found")
+	}
+}
+
+// checkLocationsWritten: a parameter location stored by the scanner is one of the five of
+// Swagger 2.0, spelled as the specification spells it.
+func checkLocationsWritten(c *Ctx, rule string, pk *packages.Package) {
+	c.Rule(rule, "every constant the scanner can store into a parameter's `In` (directly, or from the validIn list) is one of query, path, header, body, formData", 2)
+	info := pk.TypesInfo
+	valid := map[string]bool{"query": true, "path": true, "header": true, "body": true, "formData": true}
+	// the list of accepted spellings
+	if v := load.PkgVarValue(pk, "validIn"); v != nil {
+		if cl, ok := ast.Unparen(v).(*ast.CompositeLit); ok {
+			for _, el := range cl.Elts {
+				if s, ok := goan.StringVal(info, el); ok {
+					c.Check(valid[s], rule, "codescan.validIn › "+s, c.posOf(pk, el.Pos()), "a Swagger 2.0 location", fmt.Sprintf("validIn accepts %q and stores it as the parameter's location: it is not one of the five locations of Swagger 2.0, the document does not validate", s))
+				}
+			}
+		}
+	} else {
+		c.Anchor(rule, "codescan.validIn", "not found")
+	}
+	for _, fd := range load.AllFuncs(pk) {
+		if fd.Body == nil {
+			continue
+		}
+		ast.Inspect(fd.Body, func(n ast.Node) bool {
+			as, ok := n.(*ast.AssignStmt)
+			if !ok || len(as.Lhs) != 1 || len(as.Rhs) != 1 {
+				return true
+			}
+			se, ok := ast.Unparen(as.Lhs[0]).(*ast.SelectorExpr)
+			if !ok || se.Sel.Name != "In" {
+				return true
+			}
+			s, ok := goan.StringVal(info, as.Rhs[0])
+			if !ok {
+				return true
+			}
+			c.Check(valid[s], rule, fmt.Sprintf("codescan.%s › %s = %q", load.FuncName(fd), goan.ExprString(as.Lhs[0]), s), c.posOf(pk, as.Pos()), "a Swagger 2.0 location",
+				fmt.Sprintf("the scanner stores %q as a parameter location: not one of query, path, header, body, formData", s))
 			return true
 		})
 	}
